@@ -1,2 +1,169 @@
 import CnlDriver.C01
-/-! table in CnlDriver.C01 -/
+import CnlModel.ScaledWrapped
+/-! `C02` table proper (built-in representations) is in CnlDriver.C01.  `C02w`: `/`, `%`, the identity and
+`cnl::quotient` on scaled_integer over wrapped representations (harness/props/C02w.h):
+
+    C02w ebin div|mod <radix> <DL> <NL> <eL> <DR> <NR> <eR> <l> <r> => sc(el(D,N),e,radix)/<storage>:<v>
+    C02w eident <radix> <DL> <NL> <eL> <DR> <NR> <eR> <l> <r>       => 0|1      ((a/b)*b + a%b == a)
+    C02w equot  2       <DL> <NL> <eL> <DR> <NR> <eR> <l> <r>       => sc(el(D,N),e,2)/<storage>:<v>
+    C02w obin div|mod <tag> <radix> <L> <eL> <R> <eR> <l> <r>       => sc(ov(T,tag),e,radix):<v> | TRAP+ | THROW+ | UB
+    C02w oident <tag> <radix> <L> <eL> <R> <eR> <l> <r>             => 0|1
+    C02w oquot  <tag> 2 <L> <eL> <R> <eR> <l> <r>                   => sc(ov(D,tag),e,2):<v>
+
+Oracle = the property's contract on the represented values, independent of the model: for a non-zero divisor
+(and operands the representation holds: within the declared digits of an elastic_integer; kept by the usual
+arithmetic conversions for overflow_integer, and not `lowest / -1`) the quotient's representation is
+`l.tdiv r` at exponent `eL - eR`, the remainder's is `l.tmod r` at exponent `eL` (so it has the sign of the dividend
+and a magnitude below the divisor's, and `(a/b)*b + a%b = a`), same radix, the result lies within the digits its
+type declares, and no signal is raised; the C++ identity evaluates to true; `quotient` is `(l·2^k).tdiv r` at
+exponent `eL - eR - k` (`k` = digits of the divisor's representation) and fits the result type.
+Under a *checked* overflow tag operands of different signedness are not constrained here: what the tagged
+division does with them is the open class `C06.div_mixed_signedness` of C06 ("where rep division itself is
+defined"). -/
+namespace Cnl.Drv
+open Cnl Cnl.Elastic Cnl.ElasticScaled
+
+def showESNumR (radix : Nat) (x : ESNum) : String :=
+  let rep := match repTy x.digits x.narrowest with
+    | some r => r.toString
+    | none => "?"
+  s!"sc(el({x.digits},{x.narrowest.toString}),{x.exp},{radix})/{rep}:{x.value}"
+
+/-- parse `sc(el(D,N),E,radix)/rep:v` into digits, narrowest signedness, exponent, radix and value -/
+def parseEsResR (res : String) : Option (Nat × Bool × Int × Nat × Int) :=
+  match res.splitOn ":" with
+  | [ty, v] =>
+    match (ty.splitOn "/").head?.bind (fun t => parseTy t) with
+    | some (.sc (.el d (.int n)) e rx) => v.toInt?.map (fun v => (d, n.signed, e, rx, v))
+    | _ => none
+  | _ => none
+
+def withinDigits2 (d : Nat) (signed : Bool) (v : Int) : Bool :=
+  decide ((if signed then -(2^d - 1 : Int) else 0) ≤ v) && decide (v ≤ 2^d - 1)
+
+structure EArgs where
+  radix : Nat
+  x : ESNum
+  y : ESNum
+
+def parseEArgs (toks : List String) : Option EArgs :=
+  match toks with
+  | [rx, dl, nl, el, dr, nr, er, l, r] => do
+    let rx ← rx.toNat?; let dl ← dl.toNat?; let nl ← parseIntTy nl; let el ← el.toInt?
+    let dr ← dr.toNat?; let nr ← parseIntTy nr; let er ← er.toInt?; let l ← l.toInt?; let r ← r.toInt?
+    some ⟨rx, ⟨dl, nl, el, l⟩, ⟨dr, nr, er, r⟩⟩
+  | _ => none
+
+def EArgs.guard (a : EArgs) : Bool := decide a.x.InRange && decide a.y.InRange && a.y.value != 0
+def EArgs.mix (a : EArgs) : String :=
+  (if a.x.narrowest.signed then "s" else "u") ++ (if a.y.narrowest.signed then "s" else "u")
+/-- an unsigned operand filling the whole width of its storage with the top bit set -/
+def EArgs.full (a : EArgs) : String :=
+  let f (z : ESNum) : Bool := !z.narrowest.signed && (repTy z.digits z.narrowest).any (fun t => t.bits == z.digits)
+    && decide (z.value ≥ 2^(z.digits - 1))
+  if f a.x || f a.y then "/full-width-top-bit" else ""
+
+structure OArgs where
+  tag : OvTag
+  radix : Nat
+  L : IntTy
+  eL : Int
+  R : IntTy
+  eR : Int
+  l : Int
+  r : Int
+
+def parseOArgs (toks : List String) : Option OArgs :=
+  match toks with
+  | [tg, rx, lt, el, rt, er, l, r] => do
+    let tg ← parseOvTag tg; let rx ← rx.toNat?; let L ← parseIntTy lt; let el ← el.toInt?; let R ← parseIntTy rt
+    let er ← er.toInt?; let l ← l.toInt?; let r ← r.toInt?
+    some ⟨tg, rx, L, el, R, er, l, r⟩
+  | _ => none
+
+def OArgs.x (a : OArgs) : Num := ScaledWrapped.scOv a.L a.tag a.eL a.radix a.l
+def OArgs.y (a : OArgs) : Num := ScaledWrapped.scOv a.R a.tag a.eR a.radix a.r
+/-- both operands survive the usual arithmetic conversions, the divisor is not zero; under a checked tag the
+operands have the same signedness -/
+def OArgs.base (a : OArgs) : Bool :=
+  let T := usualArith a.L a.R
+  a.r != 0 && T.wrap a.l == a.l && T.wrap a.r == a.r && (a.tag == .nat || a.L.signed == a.R.signed)
+def OArgs.guard (a : OArgs) : Bool :=
+  let T := usualArith a.L a.R
+  a.base && !(T.signed && a.l == T.lowest && a.r == -1)
+def OArgs.limit (a : OArgs) : String :=
+  let T := usualArith a.L a.R
+  if a.r == -1 && a.l == -T.max then "/minus-max-by-minus-one"
+  else if a.r == -1 && a.l == T.lowest then "/lowest-by-minus-one"
+  else if a.l == a.L.lowest || a.l == a.L.max || a.r == a.R.lowest || a.r == a.R.max then "/limit" else ""
+
+/-- the undefined tag's `unreachable(message)` is an `abort(message)` in the (non-release) configuration of the
+check, printed with its polarity -/
+def showResO {α : Type} (tag : OvTag) (f : α → String) (m : Res α) : String :=
+  match tag, m with
+  | .und, .unreachable "positive overflow" => "TRAP+"
+  | .und, .unreachable "negative overflow" => "TRAP-"
+  | _, _ => showRes f m
+
+/-- parse `sc(ov(T,tag),e,radix):v` -/
+def parseScOvRes (res : String) : Option (IntTy × OvTag × Int × Nat × Int) :=
+  match res.splitOn ":" with
+  | [ty, v] =>
+    match parseTy ty, v.toInt? with
+    | some (.sc (.ov (.int t) tg) e x), some v => some (t, tg, e, x, v)
+    | _, _ => none
+  | _ => none
+
+def checkC02w (toks : List String) (res : String) : Option Verdict :=
+  match toks with
+  | "ebin" :: ops :: rest => do
+    let op ← parseBinOp ops; let a ← parseEArgs rest
+    if op != .div && op != .mod then none
+    let (wantE, wantV) : Int × Int :=
+      if op == .div then (a.x.exp - a.y.exp, a.x.value.tdiv a.y.value) else (a.x.exp, a.x.value.tmod a.y.value)
+    let spec : Option Bool := if !a.guard then none else
+      match parseEsResR res with
+      | some (d, sg, e, rx, v) => some (e == wantE && v == wantV && rx == a.radix && withinDigits2 d sg v)
+      | none => some false
+    some { model := showRes (showESNumR a.radix) (ElasticScaled.binOp op a.x a.y), spec := spec,
+           branch := "ebin/" ++ ops ++ "/" ++ a.mix ++ a.full ++ (if a.y.value < 0 then "/neg-divisor" else ""), nontrivial := a.guard }
+  | "eident" :: rest => do
+    let a ← parseEArgs rest
+    some { model := showRes showBool (ScaledWrapped.identE a.x a.y), spec := if a.guard then some (res == "1") else none,
+           branch := "eident/" ++ a.mix ++ a.full, nontrivial := a.guard }
+  | "equot" :: rest => do
+    let a ← parseEArgs rest
+    let wantV := (a.x.value * 2^a.y.digits).tdiv a.y.value
+    let spec : Option Bool := if !a.guard then none else
+      match parseEsResR res with
+      | some (d, sg, e, rx, v) => some (e == a.x.exp - a.y.exp - a.y.digits && v == wantV && rx == 2 && withinDigits2 d sg v)
+      | none => some false
+    some { model := showRes (showESNumR 2) (ScaledWrapped.quotientE a.x a.y), spec := spec,
+           branch := "equot/" ++ a.mix ++ a.full, nontrivial := a.guard }
+  | "obin" :: ops :: rest => do
+    let op ← parseBinOp ops; let a ← parseOArgs rest
+    if op != .div && op != .mod then none
+    let (wantE, wantV) : Int × Int := if op == .div then (a.eL - a.eR, a.l.tdiv a.r) else (a.eL, a.l.tmod a.r)
+    let spec : Option Bool := if !a.guard then none else
+      match parseScOvRes res with
+      | some (t, tg, e, x, v) => some (e == wantE && v == wantV && x == a.radix && tg == a.tag && t == usualArith a.L a.R)
+      | none => some false
+    some { model := showResO a.tag showNum (Layered.bin op a.x a.y), spec := spec,
+           branch := "obin/" ++ ops ++ "/" ++ a.tag.toString ++ a.limit, nontrivial := a.guard }
+  | "oident" :: rest => do
+    let a ← parseOArgs rest
+    some { model := showResO a.tag showBool (ScaledWrapped.identL a.x a.y), spec := if a.guard then some (res == "1") else none,
+           branch := "oident/" ++ a.tag.toString ++ a.limit, nontrivial := a.guard }
+  | "oquot" :: rest => do
+    let a ← parseOArgs rest
+    let wantV := (a.l * 2^a.R.digits).tdiv a.r
+    let spec : Option Bool := if !a.base then none else
+      match parseScOvRes res with
+      | some (t, tg, e, _, v) => some (e == a.eL - a.eR - a.R.digits && v == wantV && t.inRange wantV && tg == a.tag)
+      | none => some false
+    some { model := showResO a.tag (fun (x : IntTy × Int × Int) => s!"sc(ov({x.1.toString},{a.tag.toString}),{x.2.1},2):{x.2.2}")
+                      (ScaledWrapped.quotientO a.tag a.L a.eL a.R a.eR a.l a.r),
+           spec := spec, branch := "oquot/" ++ a.tag.toString, nontrivial := a.base }
+  | _ => none
+
+end Cnl.Drv
